@@ -1404,15 +1404,26 @@ def pyd_oracle(lines: list[str], seed_key: str) -> list[tuple[str, str]]:
 
 
 def gen_pyd_case(rng: common.Rng) -> list[str]:
+    """60% of the histories never make two grammars share a model class (no copy, each user model used once,
+    no pickling of a grammar built on a user model): they are outside the known finding `pydantic:model-shared`."""
     lines: list[str] = []
     keys: dict[int, list[str]] = {}
+    ext: dict[int, bool] = {}
+    no_sharing = rng.chance(0.6)
+    unused = ["M1", "M2"]
 
     def new(s: int) -> None:
-        m = rng.pick(["M1", "M2", "-", "M1"])
-        lines.append(f"pnew {s} {m}")
         from harness import c15_models
 
+        if no_sharing:
+            m = rng.pick([*unused, "-"])
+            if m in unused:
+                unused.remove(m)
+        else:
+            m = rng.pick(["M1", "M2", "-", "M1"])
+        lines.append(f"pnew {s} {m}")
         keys[s] = list(c15_models.SPEC[m]) if m != "-" else []
+        ext[s] = m != "-"
 
     new(0)
     for _ in range(rng.pick([1, 2, 3, 4, 6, 8, 12])):
@@ -1458,10 +1469,14 @@ def gen_pyd_case(rng: common.Rng) -> list[str]:
         elif op == "clear":
             lines.append(f"clear {s}")
             keys[s] = []
+            ext[s] = False
         elif op in ("copy", "pickle"):
+            if no_sharing and (op == "copy" or ext.get(s)):
+                continue
             d = rng.pick([i for i in range(NSLOTS) if i != s])
             lines.append(f"{op} {s} {d}")
             keys[d] = list(ks)
+            ext[d] = ext.get(s, False)
         elif op == "setdef":
             lines.append(f"setdef {s} {ex()} {rng.randint(1, 9)}")
         elif op == "deldef":
@@ -1587,9 +1602,9 @@ def load_corpus() -> list[dict[str, Any]]:
     out = []
     if d.is_dir():
         for p in sorted(d.glob("*.json")):
-            c = json.loads(p.read_text())["case"]
-            c.setdefault("probe", False)
-            out.append(c)
+            data = json.loads(p.read_text())
+            if "case" in data:
+                out.append(data["case"])
     return out
 
 
